@@ -1,0 +1,26 @@
+//go:build verif
+// +build verif
+
+package state
+
+import (
+	"fmt"
+	"sort"
+)
+
+// VerifDump renders the live (height, view) keys, the cancellation watermark and the shutdown flag (read-only).
+func (w *ViewContexts) VerifDump() string {
+	w.mutex.Lock()
+	defer w.mutex.Unlock()
+	keys := make([]HeightView, 0, len(w.hvToContext))
+	for k := range w.hvToContext {
+		keys = append(keys, k)
+	}
+	sort.Slice(keys, func(i, j int) bool { return keys[i].OlderThan(&keys[j]) })
+	s := fmt.Sprintf("wm=%s sd=%v live=", w.newestHvCanceledOlder, w.shutdown)
+	for _, k := range keys {
+		k := k
+		s += fmt.Sprintf("(%s c=%v)", &k, w.hvToContext[k].ctx.Err() != nil)
+	}
+	return s
+}
